@@ -158,6 +158,10 @@ def judge_stack(rec, k, md, report, counts, fresh_md=None):
                                        f"{tree.first_diff(('', b'', '', 0, 0, tree.canon_children(inner)), ('', b'', '', 0, 0, tree.canon_children(fresh)))}; {desc}")
     if inner.children:
         counts["stacks_with_indicators_beneath"] = counts.get("stacks_with_indicators_beneath", 0) + 1
+    if rec.get("glue"):
+        # an undecoded result overlaps the expression partially: what flatten does with overlapping results is C19's subject
+        counts["stacks_partially_overlapped_by_a_context"] = counts.get("stacks_partially_overlapped_by_a_context", 0) + 1
+        return True
     # (d) flatten
     try:
         got = root.flatten()
@@ -177,3 +181,44 @@ def _all(c):
         x = stack.pop()
         yield x
         stack.extend(x[5])
+
+
+def judge_pair(rec1, rec2, md, report, counts, sep=b" ; "):
+    """Two single-layer expressions with their own neutral surroundings in ONE text: each must be decoded as if it were
+    alone (state carried from one match to the next inside a decoder, or from one decoder to another, shows here).
+    Returns True if judged."""
+    for rec in (rec1, rec2):
+        if rec.get("wrap") or len(rec["layers"]) != 1:
+            return False
+        if not neutral(md, rec["prefix"] + b" " + rec["suffix"]):
+            counts["discarded:surroundings-not-neutral"] = counts.get("discarded:surroundings-not-neutral", 0) + 1
+            return False
+        pc = tree.canon(md.scan(rec["payload"]))
+        if not fr.all_identity(pc):
+            counts["discarded:payload-has-decoded-node"] = counts.get("discarded:payload-has-decoded-node", 0) + 1
+            return False
+    # each expression alone must be found (else the single-expression cases report it; a pair adds nothing)
+    for rec in (rec1, rec2):
+        alone, _ = find_layer(md.scan(rec["data"]), rec["layers"][0], len(rec["prefix"]), len(rec["blob"]))
+        if alone is None:
+            counts["pairs_skipped_member_not_found_alone"] = counts.get("pairs_skipped_member_not_found_alone", 0) + 1
+            return False
+    data = rec1["data"] + sep + rec2["data"]
+    root = md.scan(data)
+    global last_root
+    last_root = root
+    counts["pairs_judged"] = counts.get("pairs_judged", 0) + 1
+    base2 = len(rec1["data"]) + len(sep)
+    for which, rec, base in (("first", rec1, 0), ("second", rec2, base2)):
+        lay = rec["layers"][0]
+        off, length = base + len(rec["prefix"]), len(rec["blob"])
+        node, why = find_layer(root, lay, off, length)
+        if node is None:
+            if swallowed_by(root, off, off + length, same=((lay["type"], lay["label"]),)) is not None:
+                counts["discarded:blob-plus-neighbour-text-is-another-decoding"] = counts.get("discarded:blob-plus-neighbour-text-is-another-decoding", 0) + 1
+                continue
+            other = rec2 if rec is rec1 else rec1
+            report(f"pair:{which}:{lay['name']}:with:{other['layers'][0]['name']}",
+                   f"{lay['name']} expression found when alone in the text but not as the {which} of two expressions "
+                   f"({rec1['layers'][0]['name']} then {rec2['layers'][0]['name']}): {why}; input {data[:160]!r}")
+    return True
